@@ -1,6 +1,668 @@
-//! c13 — stub, to be implemented
-use crate::report::Report;
+//! C13 — buffer sizing: shipped buffer types and run-time buffers match the panel planes.
+//!
+//! Reference: bytes = planes * rows * ceil(width * bits_per_pixel / 8), written here independently of
+//! `buffer_len`, `line_bytes` and the BYTECOUNT expressions of the aliases. Observed: `size()`,
+//! `buffer().len()`, buffer contents, the pointers/lengths of `bw_buffer()`/`chromatic_buffer()`,
+//! the result of `VarDisplay::new` for slices just below / at / above the required length, and
+//! real `set_pixel` calls on accepted run-time buffers.
+use crate::json::J;
+use crate::prng::{hash_str, mix64};
+use crate::report::{par_run, Failure, Report};
 use crate::Ctx;
-pub fn run(_ctx: &Ctx) -> Report {
-    Report::new()
+use embedded_graphics_core::prelude::*;
+use epd_waveshare::color::{Color, ColorType, OctColor, TriColor};
+use epd_waveshare::graphics::VarDisplay;
+use std::panic::{catch_unwind, AssertUnwindSafe};
+
+/// the reference formula
+fn required(planes: usize, bpp: usize, w: usize, h: usize) -> usize {
+    let row = (w * bpp) / 8 + if (w * bpp) % 8 != 0 { 1 } else { 0 };
+    planes * h * row
+}
+
+fn h64(v: &[u64]) -> u64 {
+    let mut h = 0xC13u64;
+    for &x in v {
+        h = mix64(h ^ x.wrapping_mul(0x9E3779B97F4A7C15));
+    }
+    h
+}
+
+fn panic_msg(p: Box<dyn std::any::Any + Send>) -> String {
+    if let Some(s) = p.downcast_ref::<&str>() {
+        s.to_string()
+    } else if let Some(s) = p.downcast_ref::<String>() {
+        s.clone()
+    } else {
+        "<non-string panic payload>".to_string()
+    }
+}
+
+// ------------------------------------------------------------------------------------------------
+// shipped aliases
+// ------------------------------------------------------------------------------------------------
+
+struct AliasObs {
+    size: (u32, u32),
+    len: usize,
+    first_nonzero: Option<usize>,
+    /// (bw offset, bw len, chromatic offset, chromatic len) relative to buffer().as_ptr()
+    halves: Option<[i64; 4]>,
+}
+
+struct AliasRow {
+    name: &'static str,
+    module: &'static str,
+    /// the driver module's WIDTH / HEIGHT constants
+    w: u32,
+    h: u32,
+    planes: usize,
+    bpp: usize,
+    obs: fn() -> AliasObs,
+}
+
+macro_rules! mono {
+    ($name:expr, $m:ident, $t:ident, $bpp:expr) => {
+        AliasRow {
+            name: $name,
+            module: stringify!($m),
+            w: epd_waveshare::$m::WIDTH,
+            h: epd_waveshare::$m::HEIGHT,
+            planes: 1,
+            bpp: $bpp,
+            obs: || {
+                let d = Box::new(epd_waveshare::$m::$t::default());
+                let s = d.size();
+                let b = d.buffer();
+                AliasObs { size: (s.width, s.height), len: b.len(), first_nonzero: b.iter().position(|&x| x != 0), halves: None }
+            },
+        }
+    };
+}
+macro_rules! tri {
+    ($name:expr, $m:ident, $t:ident) => {
+        AliasRow {
+            name: $name,
+            module: stringify!($m),
+            w: epd_waveshare::$m::WIDTH,
+            h: epd_waveshare::$m::HEIGHT,
+            planes: 2,
+            bpp: 1,
+            obs: || {
+                let d = Box::new(epd_waveshare::$m::$t::default());
+                let s = d.size();
+                let b = d.buffer();
+                let bw = d.bw_buffer();
+                let ch = d.chromatic_buffer();
+                let base = b.as_ptr() as i64;
+                AliasObs {
+                    size: (s.width, s.height),
+                    len: b.len(),
+                    first_nonzero: b.iter().position(|&x| x != 0),
+                    halves: Some([bw.as_ptr() as i64 - base, bw.len() as i64, ch.as_ptr() as i64 - base, ch.len() as i64]),
+                }
+            },
+        }
+    };
+}
+
+/// colour type per alias from DESIGN appendix A (not from the alias definition)
+fn aliases() -> Vec<AliasRow> {
+    vec![
+        mono!("Display1in02", epd1in02, Display1in02, 1),
+        mono!("Display1in54", epd1in54, Display1in54, 1),
+        mono!("epd1in54_v2::Display1in54", epd1in54_v2, Display1in54, 1),
+        mono!("Display1in54b", epd1in54b, Display1in54b, 1),
+        mono!("Display1in54c", epd1in54c, Display1in54c, 1),
+        mono!("Display2in13", epd2in13_v2, Display2in13, 1),
+        tri!("Display2in13b", epd2in13b_v4, Display2in13b),
+        tri!("Display2in13bc", epd2in13bc, Display2in13bc),
+        tri!("Display2in66b", epd2in66b, Display2in66b),
+        mono!("epd2in7::Display2in7", epd2in7, Display2in7, 1),
+        mono!("epd2in7_v2::Display2in7", epd2in7_v2, Display2in7, 1),
+        mono!("Display2in7b", epd2in7b, Display2in7b, 1),
+        mono!("epd2in9::Display2in9", epd2in9, Display2in9, 1),
+        mono!("epd2in9_v2::Display2in9", epd2in9_v2, Display2in9, 1),
+        tri!("Display2in9b", epd2in9b_v4, Display2in9b),
+        mono!("Display2in9bc", epd2in9bc, Display2in9bc, 1),
+        mono!("Display2in9d", epd2in9d, Display2in9d, 1),
+        mono!("Display3in7", epd3in7, Display3in7, 1),
+        mono!("Display4in2", epd4in2, Display4in2, 1),
+        mono!("Display5in65f", epd5in65f, Display5in65f, 4),
+        mono!("epd5in83_v2::Display5in83", epd5in83_v2, Display5in83, 1),
+        tri!("epd5in83b_v2::Display5in83", epd5in83b_v2, Display5in83),
+        mono!("Display7in3f", epd7in3f, Display7in3f, 4),
+        mono!("epd7in5::Display7in5", epd7in5, Display7in5, 1),
+        mono!("epd7in5_hd::Display7in5", epd7in5_hd, Display7in5, 1),
+        mono!("epd7in5_v2::Display7in5", epd7in5_v2, Display7in5, 1),
+        tri!("epd7in5b_v2::Display7in5", epd7in5b_v2, Display7in5),
+        tri!("epd7in5b_v3::Display7in5", epd7in5b_v3, Display7in5),
+    ]
+}
+
+fn alias_check(a: &AliasRow, rep: &mut Report) {
+    rep.eval(a.name);
+    rep.nontrivial(h64(&[hash_str(a.name), 1]));
+    let req = required(a.planes, a.bpp, a.w as usize, a.h as usize);
+    let case = J::obj()
+        .set("alias", a.name)
+        .set("module", a.module)
+        .set("module_width", a.w)
+        .set("module_height", a.h)
+        .set("planes", a.planes)
+        .set("bits_per_pixel_per_plane", a.bpp)
+        .set("model_bytes", req);
+    let fail = |rep: &mut Report, entry: &str, class: &str, tags: Vec<String>, detail: String| {
+        rep.fail(Failure { panel: a.name.to_string(), entry: entry.to_string(), class: class.to_string(), tags, detail, case: case.clone() });
+    };
+    let o = match catch_unwind(a.obs) {
+        Ok(o) => o,
+        Err(p) => {
+            rep.count("panics_caught", 1);
+            fail(rep, "default", "alias-length", vec!["panic".into()], format!("{}::default()/accessors panicked: {}", a.name, panic_msg(p)));
+            return;
+        }
+    };
+    rep.count("alias_checks", 1);
+    rep.count("alias_bytes_checked_zero", o.len as u64);
+    if o.size != (a.w, a.h) {
+        let t = if o.size == (a.h, a.w) { "swapped" } else { "differs" };
+        fail(
+            rep,
+            "size",
+            "alias-size",
+            vec![t.into()],
+            format!("{}: size() = {}x{} but epd_waveshare::{}::WIDTH x HEIGHT = {}x{}", a.name, o.size.0, o.size.1, a.module, a.w, a.h),
+        );
+    }
+    if o.len != req {
+        let t = if o.len < req { "too-short" } else { "too-long" };
+        fail(
+            rep,
+            "buffer",
+            "alias-length",
+            vec![t.into()],
+            format!(
+                "{}: buffer().len() = {} but {} plane(s) x {} rows x ceil({}*{}/8) = {}",
+                a.name, o.len, a.planes, a.h, a.w, a.bpp, req
+            ),
+        );
+    }
+    if let Some(i) = o.first_nonzero {
+        fail(rep, "default", "alias-not-zero", vec![], format!("{}: default buffer byte {} is not zero", a.name, i));
+    }
+    if a.planes == 2 {
+        rep.count("halves_checks", 1);
+        match o.halves {
+            Some([bo, bl, co, cl]) => {
+                let half = (o.len / 2) as i64;
+                let mut bad = Vec::new();
+                if bl != cl {
+                    bad.push("unequal-length");
+                }
+                if bo == half && co == 0 && bo != co {
+                    bad.push("order-swapped");
+                } else {
+                    if bo != 0 || bl != half {
+                        bad.push("bw-half");
+                    }
+                    if co != half || cl != o.len as i64 - half {
+                        bad.push("chromatic-half");
+                    }
+                }
+                if !bad.is_empty() {
+                    fail(
+                        rep,
+                        "bw_buffer/chromatic_buffer",
+                        "halves",
+                        bad.iter().map(|s| s.to_string()).collect(),
+                        format!(
+                            "{}: buffer of {} bytes; bw_buffer() = [{}..{}), chromatic_buffer() = [{}..{}); expected [0..{}) and [{}..{})",
+                            a.name,
+                            o.len,
+                            bo,
+                            bo + bl,
+                            co,
+                            co + cl,
+                            half,
+                            half,
+                            o.len
+                        ),
+                    );
+                }
+            }
+            None => {}
+        }
+    }
+    if ["Display2in13b", "Display4in2", "Display5in65f", "epd7in5b_v2::Display7in5"].contains(&a.name) {
+      rep.sample(
+        case.clone()
+            .set("observed_size", vec![o.size.0, o.size.1])
+            .set("observed_len", o.len)
+            .set("observed_all_zero", o.first_nonzero.is_none())
+            .set("observed_halves", o.halves.map(|h| h.to_vec())),
+      );
+    }
+}
+
+// ------------------------------------------------------------------------------------------------
+// VarDisplay
+// ------------------------------------------------------------------------------------------------
+
+trait Cc: ColorType + PixelColor + Copy + 'static {
+    const PLANES: usize;
+    const BPP: usize;
+    const TAG: &'static str;
+    const GROUP: &'static str;
+    fn zero() -> Self;
+    /// colours whose encoding has at least one 1 bit (observable on a zeroed buffer)
+    fn nonzero() -> &'static [Self];
+    fn name(self) -> &'static str;
+    /// coarse width class relevant for this colour type's row padding
+    fn wtag(w: u32) -> &'static str;
+}
+impl Cc for Color {
+    const PLANES: usize = 1;
+    const BPP: usize = 1;
+    const TAG: &'static str = "color";
+    const GROUP: &'static str = "VarDisplay<Color>";
+    fn zero() -> Self {
+        Color::Black
+    }
+    fn nonzero() -> &'static [Self] {
+        &[Color::White]
+    }
+    fn name(self) -> &'static str {
+        match self {
+            Color::Black => "Black",
+            Color::White => "White",
+        }
+    }
+    fn wtag(w: u32) -> &'static str {
+        if w % 8 == 0 {
+            "w%8==0"
+        } else {
+            "w%8!=0"
+        }
+    }
+}
+impl Cc for TriColor {
+    const PLANES: usize = 2;
+    const BPP: usize = 1;
+    const TAG: &'static str = "tricolor";
+    const GROUP: &'static str = "VarDisplay<TriColor>";
+    fn zero() -> Self {
+        TriColor::Black
+    }
+    fn nonzero() -> &'static [Self] {
+        &[TriColor::White, TriColor::Chromatic]
+    }
+    fn name(self) -> &'static str {
+        match self {
+            TriColor::Black => "Black",
+            TriColor::White => "White",
+            TriColor::Chromatic => "Chromatic",
+        }
+    }
+    /// w%8 in 1..=4 is where ceil(2w/8) != 2*ceil(w/8)
+    fn wtag(w: u32) -> &'static str {
+        match w % 8 {
+            0 => "w%8==0",
+            1..=4 => "w%8!=0",
+            _ => "w%8>=5",
+        }
+    }
+}
+impl Cc for OctColor {
+    const PLANES: usize = 1;
+    const BPP: usize = 4;
+    const TAG: &'static str = "octcolor";
+    const GROUP: &'static str = "VarDisplay<OctColor>";
+    fn zero() -> Self {
+        OctColor::Black
+    }
+    fn nonzero() -> &'static [Self] {
+        &[OctColor::HiZ, OctColor::White]
+    }
+    fn name(self) -> &'static str {
+        match self {
+            OctColor::Black => "Black",
+            OctColor::White => "White",
+            OctColor::HiZ => "HiZ",
+            _ => "other",
+        }
+    }
+    fn wtag(w: u32) -> &'static str {
+        if w % 2 == 0 {
+            "w%2==0"
+        } else {
+            "w%2!=0"
+        }
+    }
+}
+
+/// one (colour type, w, h) geometry: all supplied lengths
+fn var_case<C: Cc>(w: u32, h: u32, every_pixel: bool, rep: &mut Report) {
+    let req = required(C::PLANES, C::BPP, w as usize, h as usize);
+    let mut lens = vec![req, req + 1, 0];
+    if req > 0 {
+        lens.push(req - 1);
+    }
+    lens.sort();
+    lens.dedup();
+    let gh = hash_str(C::GROUP);
+    for &len in &lens {
+        rep.eval(C::GROUP);
+        rep.nontrivial(h64(&[gh, w as u64, h as u64, len as u64]));
+        let case = J::obj()
+            .set("colour_type", C::GROUP)
+            .set("width", w)
+            .set("height", h)
+            .set("supplied_len", len)
+            .set("model_required_len", req)
+            .set("bwrbit", false);
+        let base_tags = || vec![C::TAG.to_string(), C::wtag(w).to_string()];
+        let fail = |rep: &mut Report, entry: &str, class: &str, tags: Vec<String>, detail: String, extra: Option<(&str, J)>| {
+            let mut c = case.clone();
+            if let Some((k, v)) = extra {
+                c.put(k, v);
+            }
+            rep.fail(Failure { panel: C::GROUP.to_string(), entry: entry.to_string(), class: class.to_string(), tags, detail, case: c });
+        };
+        let mut backing = vec![0u8; len];
+        // constructor
+        let r = catch_unwind(AssertUnwindSafe(|| VarDisplay::<C>::new(w, h, &mut backing, false).map(|d| d.buffer().len()).ok()));
+        rep.count("vardisplay_new_calls", 1);
+        let accepted = match r {
+            Err(p) => {
+                rep.count("panics_caught", 1);
+                let mut t = base_tags();
+                t.push("panic".into());
+                let class = if len >= req { "vardisplay-rejects-sufficient" } else { "vardisplay-accepts-too-small" };
+                fail(rep, "VarDisplay::new", class, t, format!("{}::new({}, {}, len {}) panicked: {}", C::GROUP, w, h, len, panic_msg(p)), None);
+                continue;
+            }
+            Ok(a) => a,
+        };
+        let should = len >= req;
+        match (accepted, should) {
+            (Some(_), false) => fail(
+                rep,
+                "VarDisplay::new",
+                "vardisplay-accepts-too-small",
+                base_tags(),
+                format!(
+                    "{}::new({}, {}, slice of {} bytes) returned Ok although {} plane(s) x {} rows x ceil({}*{}/8) = {} bytes are needed",
+                    C::GROUP,
+                    w,
+                    h,
+                    len,
+                    C::PLANES,
+                    h,
+                    w,
+                    C::BPP,
+                    req
+                ),
+                None,
+            ),
+            (None, true) => fail(
+                rep,
+                "VarDisplay::new",
+                "vardisplay-rejects-sufficient",
+                base_tags(),
+                format!("{}::new({}, {}, slice of {} bytes) returned Err(BufferTooSmall) although {} bytes suffice", C::GROUP, w, h, len, req),
+                None,
+            ),
+            _ => {}
+        }
+        rep.count(if accepted.is_some() { "vardisplay_accepted" } else { "vardisplay_rejected" }, 1);
+        let Some(exposed) = accepted else { continue };
+        rep.count("exposed_length_checks", 1);
+        if exposed != req {
+            let mut t = base_tags();
+            t.push(if exposed < req { "too-short".into() } else { "too-long".into() });
+            fail(
+                rep,
+                "buffer",
+                "exposed-length",
+                t,
+                format!("{} {}x{} on a {}-byte slice: buffer().len() = {}, model requires exactly {}", C::GROUP, w, h, len, exposed, req),
+                None,
+            );
+        }
+        if w == 0 || h == 0 {
+            continue;
+        }
+        // every pixel of an accepted buffer can be drawn (quick: last row / last column / corners)
+        let mut pts: Vec<(u32, u32)> = Vec::new();
+        if every_pixel {
+            for y in 0..h {
+                for x in 0..w {
+                    pts.push((x, y));
+                }
+            }
+        } else {
+            for x in 0..w {
+                pts.push((x, h - 1));
+            }
+            for y in 0..h {
+                pts.push((w - 1, y));
+            }
+            pts.push((0, 0));
+            pts.sort();
+            pts.dedup();
+        }
+        let exposed_c = exposed.min(len);
+        for &(x, y) in &pts {
+            let mut colours: Vec<C> = C::nonzero().to_vec();
+            colours.push(C::zero());
+            for &c in &colours {
+                rep.count("pixels_drawn", 1);
+                let r = catch_unwind(AssertUnwindSafe(|| {
+                    if let Ok(mut d) = VarDisplay::<C>::new(w, h, &mut backing, false) {
+                        d.set_pixel(Pixel(Point::new(x as i32, y as i32), c));
+                    }
+                }));
+                let last = if x == w - 1 && y == h - 1 {
+                    "last-row+last-column"
+                } else if y == h - 1 {
+                    "last-row"
+                } else if x == w - 1 {
+                    "last-column"
+                } else {
+                    "interior"
+                };
+                if let Err(p) = r {
+                    rep.count("panics_caught", 1);
+                    let mut t = base_tags();
+                    t.push("panic".into());
+                    fail(
+                        rep,
+                        "set_pixel",
+                        "last-pixel-panics",
+                        t,
+                        format!(
+                            "{} {}x{} accepted on a {}-byte slice (exposes {}): set_pixel(({},{}), {}) [{}] panicked: {}",
+                            C::GROUP,
+                            w,
+                            h,
+                            len,
+                            exposed,
+                            x,
+                            y,
+                            c.name(),
+                            last,
+                            panic_msg(p)
+                        ),
+                        Some(("point", J::from(vec![x, y]))),
+                    );
+                    for b in backing.iter_mut() {
+                        *b = 0;
+                    }
+                    continue;
+                }
+                // inside the slice the accessor exposes
+                if let Some(i) = backing[exposed_c..].iter().position(|&b| b != 0) {
+                    let mut t = base_tags();
+                    t.push("wrote-outside-exposed".into());
+                    fail(
+                        rep,
+                        "set_pixel",
+                        "last-pixel-panics",
+                        t,
+                        format!(
+                            "{} {}x{} on a {}-byte slice: set_pixel(({},{}), {}) changed byte {} which is beyond buffer().len() = {}",
+                            C::GROUP,
+                            w,
+                            h,
+                            len,
+                            x,
+                            y,
+                            c.name(),
+                            exposed_c + i,
+                            exposed
+                        ),
+                        Some(("point", J::from(vec![x, y]))),
+                    );
+                    for b in backing.iter_mut() {
+                        *b = 0;
+                    }
+                    continue;
+                }
+                let ones: u32 = backing[..exposed_c].iter().map(|b| b.count_ones()).sum();
+                let is_zero_colour = c.name() == C::zero().name();
+                if (!is_zero_colour && ones == 0) || (is_zero_colour && ones != 0) {
+                    let mut t = base_tags();
+                    t.push("no-effect".into());
+                    fail(
+                        rep,
+                        "set_pixel",
+                        "last-pixel-panics",
+                        t,
+                        format!(
+                            "{} {}x{} on a {}-byte slice: set_pixel(({},{}), {}) left {} one-bits in the exposed buffer (drawn on an all-zero buffer; the zero colour is drawn last and must restore it)",
+                            C::GROUP,
+                            w,
+                            h,
+                            len,
+                            x,
+                            y,
+                            c.name(),
+                            ones
+                        ),
+                        Some(("point", J::from(vec![x, y]))),
+                    );
+                    for b in backing.iter_mut() {
+                        *b = 0;
+                    }
+                }
+            }
+        }
+        if w == 13 && h == 5 && (len == req || C::PLANES == 2) {
+            rep.sample(case.clone().set("accepted", true).set("exposed_len", exposed).set("points_tried", pts.len()));
+        }
+    }
+}
+
+// ------------------------------------------------------------------------------------------------
+// buffer_len
+// ------------------------------------------------------------------------------------------------
+
+fn buffer_len_row(w: usize, hs: &[usize], rep: &mut Report) {
+    let mut n = 0u64;
+    let r = catch_unwind(AssertUnwindSafe(|| {
+        for &h in hs {
+            let got = epd_waveshare::buffer_len(w, h);
+            let want = required(1, 1, w, h);
+            n += 1;
+            if got != want {
+                rep.fail(Failure {
+                    panel: "buffer_len".into(),
+                    entry: "buffer_len".into(),
+                    class: "buffer_len".into(),
+                    tags: vec![if w % 8 == 0 { "w%8==0".to_string() } else { "w%8!=0".to_string() }, if got < want { "too-small".into() } else { "too-big".into() }],
+                    detail: format!("buffer_len({}, {}) = {}, expected ceil({}/8)*{} = {}", w, h, got, w, h, want),
+                    case: J::obj().set("width", w).set("height", h),
+                });
+            }
+        }
+    }));
+    if let Err(p) = r {
+        rep.count("panics_caught", 1);
+        rep.fail(Failure {
+            panel: "buffer_len".into(),
+            entry: "buffer_len".into(),
+            class: "buffer_len".into(),
+            tags: vec!["panic".into()],
+            detail: format!("buffer_len({}, _) panicked: {}", w, panic_msg(p)),
+            case: J::obj().set("width", w),
+        });
+    }
+    rep.evaluations += n;
+    *rep.per_panel.entry("buffer_len".into()).or_insert(0) += n;
+    rep.count("buffer_len_pairs_checked", n);
+    rep.count("nontrivial_items", n);
+    rep.nontrivial(h64(&[0xB0F, w as u64]));
+    if w == 122 {
+        rep.sample(J::obj().set("buffer_len_width", w).set("height", 250).set("observed", epd_waveshare::buffer_len(122, 250)).set("model", required(1, 1, 122, 250)));
+    }
+}
+
+enum Case {
+    Alias(usize),
+    Var(u8, u32, u32),
+    BufLen(usize),
+}
+
+pub fn run(ctx: &Ctx) -> Report {
+    let miri = ctx.mode == "miri";
+    let al = aliases();
+    let mut cases = Vec::new();
+    for i in 0..al.len() {
+        cases.push(Case::Alias(i));
+    }
+    let vmax = if miri { 8 } else { 64 };
+    for k in 0..3u8 {
+        for w in 0..=vmax {
+            for h in 0..=vmax {
+                cases.push(Case::Var(k, w, h));
+            }
+        }
+    }
+    let bmax = if miri { 64 } else { 2048 };
+    let hs: Vec<usize> = if ctx.tier_thorough || miri {
+        (0..=bmax).collect()
+    } else {
+        let mut v: Vec<usize> = (0..=16).collect();
+        v.extend([63, 64, 65, 100, 127, 128, 129, 250, 255, 256, 257, 296, 480, 528, 984, 1000, 1023, 1024, 1025, 2047, 2048]);
+        let mut s = 17;
+        while s < 2048 {
+            v.push(s);
+            s += 97;
+        }
+        v.sort();
+        v.dedup();
+        v
+    };
+    for w in 0..=bmax {
+        cases.push(Case::BufLen(w));
+    }
+    let every_pixel = ctx.tier_thorough && !miri;
+    let threads = if miri { 1 } else { ctx.threads };
+    let mut rep = par_run(&cases, threads, |_i, c, rep| match c {
+        Case::Alias(i) => alias_check(&al[*i], rep),
+        Case::Var(0, w, h) => var_case::<Color>(*w, *h, every_pixel, rep),
+        Case::Var(1, w, h) => var_case::<TriColor>(*w, *h, every_pixel, rep),
+        Case::Var(_, w, h) => var_case::<OctColor>(*w, *h, every_pixel, rep),
+        Case::BufLen(w) => buffer_len_row(*w, &hs, rep),
+    });
+    rep.note("reference formula: planes * rows * ceil(width*bits_per_pixel/8); alias geometry from the driver module's WIDTH/HEIGHT constants, colour type per alias from DESIGN appendix A");
+    rep.note("distinct_nontrivial hashes every alias, every (colour type, w, h, supplied length) VarDisplay case and one entry per buffer_len width; buffer_len (w,h) pairs are counted exactly in counters.buffer_len_pairs_checked");
+    rep.note(if every_pixel {
+        "thorough: every pixel of every accepted VarDisplay is drawn in every non-zero colour and then in the zero colour"
+    } else {
+        "quick/miri: last row, last column and origin of every accepted VarDisplay are drawn in every non-zero colour and then in the zero colour"
+    });
+    rep.note("tag w%8!=0 on VarDisplay<TriColor> means w%8 in 1..=4 (where ceil(2w/8) != 2*ceil(w/8)); w%8 in 5..=7 is tagged w%8>=5");
+    rep
 }
